@@ -9,6 +9,7 @@ import Fbr.Gen.PtMod
 import Fbr.Gen.PtUtil
 import Fbr.Gen.VfsSync
 import Fbr.Gen.VfsMod
+import Fbr.Lemmas.HostRefDemo
 
 namespace Fbr.Thm.C06
 open Fbr.Host Fbr.PtHost
@@ -168,5 +169,131 @@ theorem lookup_path_source_pinned :
   refine ⟨by decide +kernel, ?_, by decide +kernel, by decide +kernel, by decide +kernel⟩
   refine ⟨_, rfl, ?_⟩
   decide +kernel
+
+end Fbr.Thm.C06
+
+/-! ## part 2 — the export is closed (reference host FS) -/
+
+namespace Fbr.Thm.C06
+open Fbr.Host Fbr.Host.Ref
+
+/-- **nofollow_never_leaves.**  In the reference FS, from a state in which every descriptor
+    denotes an export object (`Good`): a lookup `openat(dirfd, name, O_NOFOLLOW|O_CLOEXEC|O_PATH)` of a
+    name without '/' — other than ".." on the export root — that succeeds returns a descriptor of
+    the directory entry *itself* (`lookup1`: a symbolic link is returned as the link, never its
+    target), that object belongs to the export, and the new state is again `Good`. -/
+theorem nofollow_never_leaves (s : State) (g : Good s) (dfd : Fd) (d : Obj) (name : Name) (f : Fd) (o : Obj)
+    (hd : fdObj s dfd = some d) (hslash : name.contains Ref.SLASH = false)
+    (hroot : ¬ (d = s.exportRoot ∧ name = dotdot))
+    (h : (stepCore s (.openat dfd name (O_NOFOLLOW ||| O_CLOEXEC ||| O_PATH) 0)).1 = .fd f o) :
+    lookup1 s d name = .ok o ∧ s.sent o = false ∧
+    Good (stepCore s (.openat dfd name (O_NOFOLLOW ||| O_CLOEXEC ||| O_PATH) 0)).2 := by
+  have hflags : (has (O_NOFOLLOW ||| O_CLOEXEC ||| O_PATH) O_CREAT && has (O_NOFOLLOW ||| O_CLOEXEC ||| O_PATH) O_EXCL) = false := by decide
+  have hnf : has (O_NOFOLLOW ||| O_CLOEXEC ||| O_PATH) O_NOFOLLOW = true := by decide
+  have hp : has (O_NOFOLLOW ||| O_CLOEXEC ||| O_PATH) O_PATH = true := by decide
+  have hgood := good_step s g (.openat dfd name (O_NOFOLLOW ||| O_CLOEXEC ||| O_PATH) 0)
+    (Or.inr ⟨hnf, hp, hslash, fun ⟨h1, h2⟩ => hroot ⟨by rw [hd] at h1; exact Option.some.inj h1, h2⟩⟩)
+  have hdin := fdObj_inside s g dfd d hd
+  simp only [stepCore, hd, hflags, Bool.false_eq_true, if_false, hnf, Bool.not_true, hp, if_true] at h
+  split at h
+  · cases h
+  · rename_i o' ho'
+    simp only [newFd] at h
+    cases h
+    have hl : lookup1 s d name = .ok o := by
+      unfold resolve at ho'
+      split at ho'
+      · cases ho'
+      · simp only [hslash, Bool.not_false, if_true] at ho'
+        exact walk_single_nofollow s d name o ho'
+    exact ⟨hl, lookup1_inside s g d name o hdin hroot hl, hgood⟩
+
+/-- the re-open through /proc denotes the same inode as the descriptor it re-opens -/
+theorem reopen_same_object (s : State) (f f' : Fd) (o : Obj) (fl md : Nat)
+    (h : (stepCore s (.reopen f fl md)).1 = .fd f' o) : fdObj s f = some o := by
+  simp only [stepCore] at h
+  split at h
+  · cases h
+  · rename_i e he
+    split at h
+    · simp only [newFd] at h; cases h; simp [fdObj, he]
+    · unfold openObj at h
+      split at h
+      · cases h
+      · split at h
+        · cases h
+        · split at h <;> (simp only [newFd] at h; cases h; simp [fdObj, he])
+
+/-- **rename_link_stay_inside.**  From a `Good` state, mkdirat, mknodat, symlinkat, linkat,
+    unlinkat and renameat2 (every flag value, every name — names that are not plain single
+    components are refused by the host) leave every object of the sentinel tree exactly as it was
+    and lead to a `Good` state: whatever is created, linked, removed or moved stays among the
+    export objects. -/
+theorem rename_link_stay_inside (s : State) (g : Good s) (c : HCall)
+    (hc : (∃ d n m, c = .mkdirat d n m) ∨ (∃ d n m r, c = .mknodat d n m r) ∨ (∃ t d n, c = .symlinkat t d n) ∨
+          (∃ f o d n fl, c = .linkat f o d n fl) ∨ (∃ d n fl, c = .unlinkat d n fl) ∨
+          (∃ a x b y fl, c = .renameat2 a x b y fl)) :
+    Good (stepCore s c).2 ∧ ∀ x, s.sent x = true → (stepCore s c).2.nodes x = s.nodes x := by
+  have h1 : ConfinedOpen s c := by
+    rcases hc with ⟨_, _, _, rfl⟩ | ⟨_, _, _, _, rfl⟩ | ⟨_, _, _, rfl⟩ | ⟨_, _, _, _, _, rfl⟩ | ⟨_, _, _, rfl⟩ | ⟨_, _, _, _, _, rfl⟩ <;> trivial
+  have h2 : ∀ d n fl m, c = .openat d n fl m → (has fl O_CREAT && has fl O_EXCL) = true ∨ has fl O_TRUNC = false := by
+    intro d n fl m e
+    rcases hc with ⟨_, _, _, rfl⟩ | ⟨_, _, _, _, rfl⟩ | ⟨_, _, _, rfl⟩ | ⟨_, _, _, _, _, rfl⟩ | ⟨_, _, _, rfl⟩ | ⟨_, _, _, _, _, rfl⟩ <;> cases e
+  exact ⟨good_step s g c h1, fun x hx => sentinel_untouched s g c h2 x hx⟩
+
+/-- **inode_table_within_export (partial).**  `Inv s := Good s`: every open descriptor — the
+    O_PATH descriptors of the inode table and the descriptors of the handle table are descriptors
+    — and every file handle denotes an object of the export.  Proved, for the reference host: `Inv`
+    is preserved by every call that is confined in the state it is issued in (`good_step`), hence
+    by every *program* — a request, or by induction over the request list a whole history — all of
+    whose calls are confined (`AllConfined`), and such a run changes no object of the sentinel tree.
+    Proved about the passthrough: every `openat` of every request is an `O_PATH|O_NOFOLLOW` lookup
+    or an `O_CREAT|O_EXCL` creation (`C05.special_files_never_opened` / `IoSafe`), lookup names
+    contain no '/' (`lookup_single_component`), mutator names are plain (`mutators_reject_bad_names`),
+    ".." on inode 1 is sent as "." (`dotdot_at_root_is_root`).
+    Not proved in Lean (hence `_partial`): that these facts give `AllConfined` for `Pt.step` — the
+    remaining obligation is "only inode 1 denotes the export root object" (one table entry per
+    host object, the invariant of C08) so that ".." is never sent on a descriptor of the export
+    root; it is checked on the real code by the direct oracles `C06:escape:*` (no descriptor is ever
+    opened on a sentinel object) and `C06:sentinel-modified:*`. -/
+theorem inode_table_within_export_partial {α : Type} (sent : Obj → Bool) (root : Obj) (p : Prog α) (s : State)
+    (inv : Good s) (hconf : AllConfined sent root p s) :
+    Good ((p.run (ops sent root) s).2.1) ∧
+    (∀ f e, (p.run (ops sent root) s).2.1.fds f = some e → s.sent e.obj = false) ∧
+    (∀ x, s.sent x = true → (p.run (ops sent root) s).2.1.nodes x = s.nodes x) := by
+  have h := run_good sent root p s inv hconf
+  refine ⟨h.1, ?_, h.2⟩
+  intro f e he
+  have hs : (p.run (ops sent root) s).2.1.sent = s.sent := by
+    clear h he
+    induction p generalizing s with
+    | pure a => rfl
+    | call c k ih =>
+      have := ih _ (step s c).2 (good_step' s inv c hconf.1) hconf.2.2
+      show ((k (step s c).1).run (ops sent root) (step s c).2).2.1.sent = s.sent
+      rw [this, step_sent]
+  rw [← hs]
+  exact h.1.fds f e he
+
+/-! ### non-vacuity (a concrete host: `Fbr.Lemmas.HostRefDemo`) -/
+
+/-- the invariant holds of a concrete state with a sentinel tree around the export -/
+example : Good demo := demo_good
+
+/-- O_NOFOLLOW on a symlink that points out of the export yields the link itself (object 3) … -/
+example : (stepCore demo (.openat 0 sLnk (O_NOFOLLOW ||| O_CLOEXEC ||| O_PATH) 0)).1 = .fd 1 3 := by decide
+
+/-- … whereas the same call without O_NOFOLLOW reaches the sentinel file (object 1): the flag is
+    what keeps lookups inside -/
+example : (stepCore demo (.openat 0 sLnk (O_CLOEXEC ||| O_PATH) 0)).1 = .fd 1 1 ∧ demo.sent 1 = true := by decide
+
+/-- ".." on the export root reaches the sentinel parent (object 0): the rewrite to "." is needed -/
+example : (stepCore demo (.openat 0 dotdot (O_NOFOLLOW ||| O_CLOEXEC ||| O_PATH) 0)).1 = .fd 1 0 ∧ demo.sent 0 = true := by decide
+
+/-- a name with '/' walks out of the export: the single-component check is needed -/
+example : (stepCore demo (.openat 0 sUpSecret (O_NOFOLLOW ||| O_CLOEXEC ||| O_PATH) 0)).1 = .fd 1 1 := by decide
+
+/-- "." and ".." below the root stay inside -/
+example : (stepCore demo (.openat 0 dot (O_NOFOLLOW ||| O_CLOEXEC ||| O_PATH) 0)).1 = .fd 1 2 := by decide
 
 end Fbr.Thm.C06
